@@ -5,6 +5,7 @@
 // map<step,payload>; write(s,P) erases all keys >= s and inserts (s,P).
 // Every value of every array carries the unique id of the write that produced it.
 #include "../simcore/runner.hpp"
+#include "../simcore/eclcodec.hpp"
 
 #include <opm/io/eclipse/ERst.hpp>
 #include <opm/io/eclipse/EclFile.hpp>
@@ -430,7 +431,16 @@ struct C08 : Scenario {
                 else {
                     Rng tr(static_cast<std::uint64_t>(plan.geti("trunc_seed")));
                     for (int q = 0; q < 96 && !full.empty(); ++q) offs.push_back(tr.below(full.size()));
-                    // record boundaries: around every 4-byte marker of the first 4 KB tail and head
+                    // structural offsets from the independent decoder: header starts, data starts, array ends and every sub-block boundary
+                    // (+-1, +-4) - a cut there leaves complete-looking records behind, the case a size-arithmetic reader is most likely to get wrong
+                    try {
+                        for (const auto& arr : codec::decode_unformatted(full)) {
+                            std::vector<size_t> marks = {arr.header_off, arr.data_off, arr.end_off};
+                            int es; long maxb; codec::type_info(arr.type, es, maxb);
+                            if (es > 0 && arr.count > maxb) for (long b = 1; b * maxb < arr.count + maxb; ++b) marks.push_back(arr.data_off + static_cast<size_t>(b) * (static_cast<size_t>(maxb) * static_cast<size_t>(es) + 8));
+                            for (size_t mk : marks) for (long d : {-4L, -1L, 0L, 1L, 4L}) { long long o = static_cast<long long>(mk) + d; if (o >= 0 && o < static_cast<long long>(full.size())) offs.push_back(static_cast<size_t>(o)); }
+                        }
+                    } catch (const codec::Error&) {}
                     for (size_t t = 0; t < std::min<size_t>(full.size(), 64); ++t) offs.push_back(t);
                     for (size_t t = full.size() > 64 ? full.size() - 64 : 0; t < full.size(); ++t) offs.push_back(t);
                 }
